@@ -187,6 +187,12 @@ class P:
             return ("str", v)
         if v == "(":
             e = self.expr()
+            if self.peek()[1] == "..":
+                self.next()
+                incl = self.accept("=")
+                hi = self.expr()
+                self.expect(")")
+                return ("range", e, hi, bool(incl))
             if self.accept(","):
                 items = [e]
                 while not self.accept(")"):
@@ -228,7 +234,26 @@ class P:
 
     def if_(self):
         if self.peek()[1] == "let":
-            raise Unsupported("if let")
+            # if let Some(x) = E / if let Some((a, b)) = E
+            self.next()
+            if self.next()[1] != "Some":
+                raise Unsupported("if let pattern")
+            self.expect("(")
+            if self.accept("("):
+                pv = [self.next()[1]]
+                while self.accept(","):
+                    pv.append(self.next()[1])
+                self.expect(")")
+            else:
+                pv = [self.next()[1]]
+            self.expect(")")
+            self.expect("=")
+            scrut = self.expr(nostruct=True)
+            th = self.block()
+            el = None
+            if self.accept("else"):
+                el = [("expr", self.if_())] if self.accept("if") else self.block()
+            return ("iflet", pv, scrut, th, el)
         c = self.expr(nostruct=True)
         th = self.block()
         el = None
@@ -508,6 +533,8 @@ class Tr:
             t = self.ty(e[1])
             if t == "f64":
                 return "bool" if e[2] in ("is_nan", "is_finite") else "f64"
+            if e[1][0] == "range" and e[2] == "contains":
+                return "bool"
             if (t, e[2]) in getattr(self.c, "method_map", {}):
                 return self.c.method_map[(t, e[2])][1]
             if e[2] == "ok_or":
@@ -548,9 +575,22 @@ class Tr:
         if k == "struct":
             return self.norm_ty(e[1][-1])
         if k == "index":
-            if (self.ty(e[1]) or "").startswith("Matrix3") and e[2][0] == "tuple":
+            t = self.ty(e[1]) or ""
+            if t.startswith("Matrix3") and e[2][0] == "tuple":
                 return "f64"
+            m = re.fullmatch(r"Vec<(.+)>", t)
+            if m:
+                return m.group(1)
             return "?"
+        if k == "iflet":
+            saved = dict(self.vars)
+            for v in e[1]:
+                self.vars[v] = "f64"
+            t = self.ty_block(e[3])
+            self.vars = saved
+            return t
+        if k == "range":
+            return "Range"
         if k == "try":
             t = self.ty(e[1])
             m = re.fullmatch(r"(?:Option|Result)<(.+)>", t or "")
@@ -605,6 +645,10 @@ class Tr:
             if op in ("&&", "||"):
                 return "(%s %s %s)" % ("andb" if op == "&&" else "orb", A, B)
             tb = self.ty(b)
+            if self.ty(a) == "usize":
+                if op == "+" and b[0] == "num" and b[1] == "1":
+                    return "(S %s)" % A
+                raise Unsupported("usize arithmetic")
             da, db = vdim(self.ty(a)), vdim(tb)
             if self.ty(a) == "Rot2" and db == 2 and op == "*":
                 return "(rot2 %s %s)" % (A, B)       # Iso2::rotation(t) * v: unit complex multiplication (Model.Circle.rot2)
@@ -666,7 +710,7 @@ class Tr:
         if k == "mcall":
             recv, name, args = e[1], e[2], e[3]
             t = self.ty(recv)
-            R = self.ex(recv)
+            R = None if recv[0] == "range" else self.ex(recv)
             if t == "f64" or (t == "?" and name in F64_METHODS):
                 if name in F64_METHODS and not args:
                     return "(%s %s)" % (F64_METHODS[name], R)
@@ -684,6 +728,10 @@ class Tr:
                 if name == "is_finite":
                     return "(nfinite %s)" % R
                 raise Unsupported("f64 method " + name)
+            if recv[0] == "range" and name == "contains" and len(args) == 1:
+                x = self.ex(args[0])
+                lo, hi = self.ex(recv[1]), self.ex(recv[2])
+                return "(andb (nleb %s %s) (%s %s %s))" % (lo, x, "nleb" if recv[3] else "nltb", x, hi)
             if (t, name) in getattr(self.c, "method_map", {}):
                 return self.c.method_map[(t, name)][0].format(R, *[self.ex(a) for a in args])
             if name == "ok_or" and len(args) == 1:
@@ -778,6 +826,25 @@ class Tr:
                 else:
                     arms.append("| %s_%s => %s" % (t, pat[-1], self.ex(body)))
             return "(match %s with %s end)" % (self.ex(e[1]), " ".join(arms))
+        if k == "iflet":
+            if e[4] is None:
+                raise Unsupported("if let without else as an expression")
+            scr = self.ex(e[2])
+            saved = dict(self.vars)
+            inner = self.ty(e[2])
+            m = re.fullmatch(r"Option<(.+)>", inner or "")
+            for v in e[1]:
+                self.vars[v] = "f64" if len(e[1]) > 1 else (m.group(1) if m else "?")
+            th = self.block_expr(e[3])
+            self.vars = saved
+            pat = self.var(e[1][0]) if len(e[1]) == 1 else "(" + ", ".join(self.var(v) for v in e[1]) + ")"
+            return "(match %s with Some %s => %s | None => %s end)" % (scr, pat, th, self.block_expr(e[4]))
+        if k == "index" and re.fullmatch(r"Vec<(.+)>", self.ty(e[1]) or ""):
+            inner = re.fullmatch(r"Vec<(.+)>", self.ty(e[1])).group(1)
+            dflt = {"Point2": "(nofZ 0, nofZ 0)", "Vector2": "(nofZ 0, nofZ 0)"}.get(inner)
+            if dflt is None:
+                raise Unsupported("index into Vec<%s>" % inner)
+            return "(nth %s %s %s)" % (self.ex(e[2]), self.ex(e[1]), dflt)
         if k == "index":
             t = self.ty(e[1]) or ""
             if t.startswith("Matrix3") and e[2][0] == "tuple" and len(e[2][1]) == 2 and all(x[0] == "num" for x in e[2][1]):
@@ -916,6 +983,11 @@ class Tr:
             return "bool"
         if t in self.c.structs or t in self.c.enums:
             return t
+        if t == "usize":
+            return "nat"
+        m = re.fullmatch(r"Vec<(.+)>", t)
+        if m:
+            return "(list %s)" % self.coq_ty(m.group(1))
         if vdim(t) == 2:
             return "(num * num)%type"
         if vdim(t) == 3:
